@@ -38,6 +38,7 @@ func (t *Term) Key() string {
 
 type termTable struct {
 	m map[string]*Term
+	locEpochFn func(loc string) int // per-location epoch mapping used by substFull for entry-state loads
 }
 
 func newTermTable() *termTable { return &termTable{m: map[string]*Term{}} }
@@ -63,6 +64,9 @@ func (tt *termTable) mk(t Term) *Term {
 		fmt.Fprintf(&sb, "%s,%d", t.A.key, t.N)
 	case "L":
 		fmt.Fprintf(&sb, "%s@%d", t.A.key, t.N)
+		if t.S != "" {
+			sb.WriteString("#" + t.S)
+		}
 	case "B":
 		fmt.Fprintf(&sb, "%s,%s,%s", t.S, t.A.key, t.B.key)
 	case "N", "LEN", "KIND", "ISNIL", "TYPEOF", "VALOF":
@@ -131,7 +135,7 @@ func (tt *termTable) boolConst(b bool) *Term {
 func (tt *termTable) simplify(t *Term) *Term {
 	switch t.K {
 	case "F":
-		if t.A.K == "L" {
+		if t.A.K == "L" && t.A.S == "" {
 			return tt.mk(Term{K: "L", A: tt.mk(Term{K: "FA", A: t.A.A, N: t.N}), N: t.A.N})
 		}
 	case "LEN":
@@ -376,6 +380,9 @@ func (tt *termTable) substFull(t *Term, args, results []*Term, epoch int) *Term 
 	nt := *t
 	if t.K == "L" || t.K == "APP" {
 		nt.N = epoch
+		if t.K == "L" && tt.locEpochFn != nil {
+			nt.N = tt.locEpochFn(t.S)
+		}
 	}
 	nt.A, nt.B = a, b
 	nt.vals = nil
@@ -423,6 +430,9 @@ type State struct {
 	terms map[ssa.Value]*Term     // per-path term overrides (heap loads with epoch, aliased phis)
 	mem   map[*ssa.Alloc]ssa.Value // multi-store local cells: last stored value (nil = unknown)
 	cep   map[ssa.Value]int       // memory epoch at the time of each (pure) call
+	cepLoc map[ssa.Value]*locSnap // per-location epochs at the time of each call
+	base  int                     // epoch of the last write that may have touched any location
+	locEp map[string]int          // per abstract location: epoch of its last write (absent: base)
 	heap  map[string]heapCell     // store-to-load forwarding for heap cells (address term key -> stored value)
 	epoch int
 	dead  bool
@@ -449,6 +459,47 @@ func (s *State) factList() []Fact {
 	return out
 }
 
+// locSnap is an immutable snapshot of the per-location epochs.
+type locSnap struct {
+	base int
+	loc  map[string]int
+	k    string
+}
+
+func (s *locSnap) of(loc string) int {
+	if ep, ok := s.loc[loc]; ok {
+		return ep
+	}
+	return s.base
+}
+
+func (s *locSnap) key() string {
+	if s.k == "" {
+		var ks []string
+		for l, ep := range s.loc {
+			ks = append(ks, fmt.Sprintf("%s=%d", l, ep))
+		}
+		sort.Strings(ks)
+		s.k = fmt.Sprintf("%d|%s", s.base, strings.Join(ks, ","))
+	}
+	return s.k
+}
+
+func (s *State) locEpoch(loc string) int {
+	if ep, ok := s.locEp[loc]; ok {
+		return ep
+	}
+	return s.base
+}
+
+func (s *State) snap() *locSnap {
+	m := make(map[string]int, len(s.locEp))
+	for k, v := range s.locEp {
+		m[k] = v
+	}
+	return &locSnap{base: s.base, loc: m}
+}
+
 type heapCell struct {
 	addr *Term
 	val  ssa.Value
@@ -457,7 +508,7 @@ type heapCell struct {
 }
 
 func newState() *State {
-	return &State{facts: map[string]Fact{}, bind: map[ssa.Value]ssa.Value{}, mem: map[*ssa.Alloc]ssa.Value{}, terms: map[ssa.Value]*Term{}, heap: map[string]heapCell{}, cep: map[ssa.Value]int{}}
+	return &State{facts: map[string]Fact{}, bind: map[ssa.Value]ssa.Value{}, mem: map[*ssa.Alloc]ssa.Value{}, terms: map[ssa.Value]*Term{}, heap: map[string]heapCell{}, cep: map[ssa.Value]int{}, cepLoc: map[ssa.Value]*locSnap{}, locEp: map[string]int{}}
 }
 
 func (s *State) clone() *State {
@@ -469,6 +520,15 @@ func (s *State) clone() *State {
 	n.cep = make(map[ssa.Value]int, len(s.cep))
 	for k, v := range s.cep {
 		n.cep[k] = v
+	}
+	n.cepLoc = make(map[ssa.Value]*locSnap, len(s.cepLoc))
+	for k, v := range s.cepLoc {
+		n.cepLoc[k] = v
+	}
+	n.base = s.base
+	n.locEp = make(map[string]int, len(s.locEp))
+	for k, v := range s.locEp {
+		n.locEp[k] = v
 	}
 	n.heap = make(map[string]heapCell, len(s.heap))
 	for k, v := range s.heap {
@@ -537,6 +597,10 @@ func (s *State) key() string {
 	for v, ep := range s.cep {
 		ks = append(ks, fmt.Sprintf("c:%s=%d", valueID(v), ep))
 	}
+	for l, ep := range s.locEp {
+		ks = append(ks, fmt.Sprintf("le:%s=%d", l, ep))
+	}
+	ks = append(ks, fmt.Sprintf("base:%d", s.base))
 	ks = append(ks, fmt.Sprintf("e:%d", s.epoch))
 	sort.Strings(ks)
 	return strings.Join(ks, ";")
@@ -577,6 +641,7 @@ func (s *State) dropMentioning(vals map[ssa.Value]bool) {
 	for v := range s.cep {
 		if vals[v] {
 			delete(s.cep, v)
+			delete(s.cepLoc, v)
 		}
 	}
 	for k, c := range s.heap {
@@ -677,7 +742,27 @@ func meetStates(a, b *State) *State {
 	for v, ep := range a.cep {
 		if x, ok := b.cep[v]; ok && x == ep {
 			n.cep[v] = ep
+			if sa, sb := a.cepLoc[v], b.cepLoc[v]; sa != nil && sb != nil && sa.key() == sb.key() {
+				n.cepLoc[v] = sa
+			}
 		}
+	}
+	if a.base == b.base {
+		n.base = a.base
+		for l, ep := range a.locEp {
+			if x, ok := b.locEp[l]; ok && x == ep {
+				n.locEp[l] = ep
+			} else {
+				n.locEp[l] = -1
+			}
+		}
+		for l := range b.locEp {
+			if _, ok := a.locEp[l]; !ok {
+				n.locEp[l] = -1
+			}
+		}
+	} else {
+		n.base = -1
 	}
 	if a.epoch == b.epoch {
 		n.epoch = a.epoch
